@@ -12,14 +12,15 @@ def run(ctx):
     # and again on the trace): four real Variable objects at those addresses, a-b equivalent, c-d not, both query orders
     with open(scen, "a") as f:
         for q in json.load(open(fam)):
-            for queries in ([["am", 0, 1], ["am", 2, 3]], [["am", 2, 3], ["am", 0, 1]], [["am", 0, 1], ["am", 3, 2], ["am", 1, 0], ["am", 2, 3]]):
-                f.write(json.dumps({"kind": "collision", "n": 4, "addr": q["addr"], "limbs": q["limbs"], "edges": [[0, 1]], "queries": queries}, separators=(",", ":")) + "\n")
-                f.write(json.dumps({"kind": "collision", "n": 4, "addr": q["addr"], "limbs": q["limbs"], "edges": [[2, 3]], "queries": queries}, separators=(",", ":")) + "\n")
+            for queries in ([["am", 0, 1], ["am", 2, 3]], [["am", 2, 3], ["am", 0, 1]], [["am", 0, 1], ["am", 3, 2], ["am", 1, 0], ["am", 2, 3]],
+                            [["am", 0, 0], ["am", 0, 2], ["am", 1, 3]], [["am", 0, 3], ["am", 1, 2], ["am", 0, 1]], [["am", 1, 2], ["am", 0, 3], ["am", 2, 3]]):
+                f.write(json.dumps({"kind": "collision", "fam": q["fam"], "n": 4, "addr": q["addr"], "limbs": q["limbs"], "edges": [[0, 1]], "queries": queries}, separators=(",", ":")) + "\n")
+                f.write(json.dumps({"kind": "collision", "fam": q["fam"], "n": 4, "addr": q["addr"], "limbs": q["limbs"], "edges": [[2, 3]], "queries": queries}, separators=(",", ":")) + "\n")
     ctx.sample(scen, 3)
     trace = ctx.execute("equivcache", scen)
     ctx.validate("EquivCache", "Trace_EquivCache.tla", "Trace_EquivCache.cfg", trace, "equivcache", parallel=8)
     ctx.cov["distinct_nontrivial"] = ctx.cov["traces_validated_against_impl"]
     ctx.finish("model_checking",
                "all connection graphs on %d variables x all sequences of 2 areEquivalentVariables queries (each repeated as hasEquivalentVariable(v, true)) on real objects, answers compared by TLC with reachability; "
-               "plus 6 address quadruples that collide under the modelled 64-bit Cantor key (verified by TLC on 8-bit limbs), with real Variable objects placed at those addresses by the executor's allocator, both query orders" % (3 if ctx.quick else 4),
+               "plus 6 address quadruples that collide under the modelled 64-bit Cantor key (verified by TLC on 8-bit limbs) and 7 quadruples related by equal low 32/16 bits, equal sum, equal xor, equal high half or a page shift, with real Variable objects placed at those addresses by the executor's allocator, six query orders" % (3 if ctx.quick else 4),
                ["addresses are chosen through the executor's operator new (no hook in the library needed)", "the collision family is constructed from the specification's formula by bin/mk-collisions and committed"])
